@@ -160,7 +160,9 @@ class SmtLibCommand(namedtuple('SmtLibCommand', ['name', 'args'])):
 
         elif self.name in [smtcmd.DECLARE_FUN, smtcmd.DECLARE_CONST]:
             symbol = self.args[0]
-            type_str = symbol.symbol_type().as_smtlib()
+            # (declare-const c S) has no parameter list
+            funstyle = (self.name == smtcmd.DECLARE_FUN)
+            type_str = symbol.symbol_type().as_smtlib(funstyle=funstyle)
             outstream.write("(%s %s %s)" % (self.name,
                                             quote(symbol.symbol_name()),
                                             type_str))
